@@ -426,7 +426,7 @@ func (p *c29Path) store(a string, v c29V, t types.Type, at ssa.Instruction) {
 
 func (p *c29Path) wipe(a string) {
 	for k := range p.mem {
-		if k == a || k == a+"[]" || strings.HasPrefix(k, a+".") || strings.HasPrefix(k, a+"[") {
+		if k == a || k == a+"[]" || strings.HasPrefix(k, a+".") || strings.HasPrefix(k, a+"[") || strings.HasPrefix(k, a+"@") {
 			delete(p.mem, k)
 		}
 	}
@@ -437,12 +437,111 @@ func (p *c29Path) havoc(a string) {
 	p.tag[a] = p.fresh("hv")
 }
 
+// byteLen: the length in bytes of the buffer at address a, when known.
+func (p *c29Path) byteLen(a string) (int64, bool) {
+	if t := p.atype[a]; t != nil {
+		if pt, ok := t.Underlying().(*types.Pointer); ok {
+			if at, ok := pt.Elem().Underlying().(*types.Array); ok {
+				return at.Len(), true
+			}
+		}
+	}
+	if l, ok := p.lenOf[a]; ok && l.num {
+		return l.n, true
+	}
+	return 0, false
+}
+
+// putField: a fixed-width field (e.g. a big-endian uint32) is written into dst,
+// which is a whole buffer or the constant-offset part dst = base[lo:...] of
+// one. A buffer is modelled as the sequence of the fields written into it: its
+// content is their concatenation once they tile it completely.
+func (p *c29Path) putField(dst c29V, width int64, term string) {
+	base, off := dst.t, int64(0)
+	if s, ok := p.sub[dst.t]; ok {
+		n, err := strconv.ParseInt(s[1], 10, 64)
+		if s[1] == "" {
+			n, err = 0, nil
+		}
+		if _, nested := p.sub[s[0]]; err != nil || nested {
+			if strings.HasPrefix(s[0], "@") {
+				p.havoc(s[0])
+			}
+			return
+		}
+		base, off = s[0], n
+	}
+	if total, known := p.byteLen(base); off == 0 && (!known || total == width) {
+		p.wipe(base)
+		p.mem[base+"[]"] = c29V{t: term}
+		return
+	}
+	if whole, ok := p.mem[base+"[]"]; ok && whole.t != "zeros" {
+		// overwriting part of a buffer filled as a whole: no longer known
+		p.wipe(base)
+	}
+	delete(p.mem, base+"[]")
+	// a field overlapping an earlier one replaces it
+	for k := off - width + 1; k < off+width; k++ {
+		if k != off {
+			delete(p.mem, base+"@"+strconv.FormatInt(k, 10))
+		}
+	}
+	p.mem[base+"@"+strconv.FormatInt(off, 10)] = c29V{t: term, n: width}
+}
+
+// fields: the fields written into the buffer at base from byte lo up to byte
+// hi, when they tile that range exactly.
+func (p *c29Path) fields(base string, lo, hi int64) ([]string, bool) {
+	var out []string
+	for off := lo; off < hi; {
+		f, ok := p.mem[base+"@"+strconv.FormatInt(off, 10)]
+		if !ok || f.n <= 0 || off+f.n > hi {
+			return nil, false
+		}
+		out = append(out, f.t)
+		off += f.n
+	}
+	return out, len(out) > 0
+}
+
+func c29Cat(parts []string) string {
+	if len(parts) == 1 {
+		return parts[0]
+	}
+	return "cat(" + strings.Join(parts, ",") + ")"
+}
+
 // content: the byte content a slice / array address / string value stands for.
 func (p *c29Path) content(v c29V) string {
+	if c, ok := p.mem[v.t+"[]"]; ok && c.t != "zeros" {
+		return c.t
+	}
+	if total, known := p.byteLen(v.t); known {
+		if fs, ok := p.fields(v.t, 0, total); ok {
+			return c29Cat(fs)
+		}
+	}
 	if c, ok := p.mem[v.t+"[]"]; ok {
 		return c.t
 	}
 	if s, ok := p.sub[v.t]; ok {
+		// a constant-offset part of a buffer made of fields
+		lo, e1 := strconv.ParseInt(s[1], 10, 64)
+		if s[1] == "" {
+			lo, e1 = 0, nil
+		}
+		hi, e2 := strconv.ParseInt(s[2], 10, 64)
+		if s[2] == "" {
+			if total, known := p.byteLen(s[0]); known {
+				hi, e2 = total, nil
+			}
+		}
+		if e1 == nil && e2 == nil {
+			if fs, ok := p.fields(s[0], lo, hi); ok {
+				return c29Cat(fs)
+			}
+		}
 		return "sub(" + p.content(c29V{t: s[0]}) + "," + s[1] + "," + s[2] + ")"
 	}
 	// four bytes stored one by one, most significant first: the hand-written
@@ -467,6 +566,54 @@ func (p *c29Path) content(v c29V) string {
 		return tg + v.t[len(base):] + "[]"
 	}
 	return v.t
+}
+
+// hashWrite appends the bytes c to the input of hash h. The input is kept as a
+// canonical BYTE STREAM, not as a list of Write calls: a buffer that is the
+// concatenation of several fields counts as those fields one after the other,
+// two consecutive parts of one value count as that value, and a 32-bit length
+// followed by the bytes it counts is the SSH string encoding.
+func (p *c29Path) hashWrite(h, c string, at ssa.Instruction) {
+	if head, args, suf, ok := c29Split(c); ok && head == "cat" && suf == "" && len(args) > 0 {
+		for _, a := range args {
+			p.hashWrite(h, a, at)
+		}
+		return
+	}
+	it := c29Item{"raw", c, at}
+	for _, enc := range []string{"mpint", "string", "u32"} {
+		if strings.HasPrefix(c, enc+"(") && strings.HasSuffix(c, ")") && c29Balanced(c[len(enc)+1:len(c)-1]) {
+			it = c29Item{enc, c[len(enc)+1 : len(c)-1], at}
+		}
+	}
+	its := p.hashes[h]
+	n := len(its)
+	if it.enc == "raw" && n > 0 && its[n-1].enc == "raw" {
+		h1, a1, s1, ok1 := c29Split(its[n-1].datum)
+		h2, a2, s2, ok2 := c29Split(c)
+		if ok1 && ok2 && h1 == "sub" && h2 == "sub" && s1 == "" && s2 == "" && len(a1) == 3 && len(a2) == 3 &&
+			a1[0] == a2[0] && a1[2] != "" && a1[2] == a2[1] {
+			merged := "sub(" + a1[0] + "," + a1[1] + "," + a2[2] + ")"
+			if (a1[1] == "" || a1[1] == "0") && a2[2] == "" {
+				merged = a1[0]
+			}
+			p.hashes[h] = its[: n-1 : n-1]
+			p.hashWrite(h, merged, at)
+			return
+		}
+	}
+	isLen := func(d string) bool {
+		if d == "len("+c+")" {
+			return true
+		}
+		k, decided := p.dec["len("+c+")"]
+		return decided && d == strconv.FormatInt(k, 10)
+	}
+	if it.enc == "raw" && n > 0 && its[n-1].enc == "u32" && isLen(its[n-1].datum) {
+		p.hashes[h] = append(its[:n-1:n-1], c29Item{"string", c, at})
+		return
+	}
+	p.hashes[h] = append(its, it)
 }
 
 func (p *c29Path) bigOf(v c29V) string {
@@ -1046,27 +1193,7 @@ func (sx *c29SX) call(p *c29Path, f *c29Frame, ci ssa.CallInstruction) *c29Fork 
 		set(c29V{t: p.fresh("hash"), nn: true})
 		return next()
 	case cc.IsInvoke() && isHash(args[0]) && cc.Method.Name() == "Write" && len(args) == 2:
-		h := args[0].t
-		c := p.content(args[1])
-		it := c29Item{"raw", c, ci}
-		for _, enc := range []string{"mpint", "string", "u32"} {
-			if strings.HasPrefix(c, enc+"(") && strings.HasSuffix(c, ")") && c29Balanced(c[len(enc)+1:len(c)-1]) {
-				it = c29Item{enc, c[len(enc)+1 : len(c)-1], ci}
-			}
-		}
-		isLen := func(d string) bool {
-			if d == "len("+c+")" {
-				return true
-			}
-			k, decided := p.dec["len("+c+")"]
-			return decided && d == strconv.FormatInt(k, 10)
-		}
-		if n := len(p.hashes[h]); it.enc == "raw" && n > 0 && p.hashes[h][n-1].enc == "u32" && isLen(p.hashes[h][n-1].datum) {
-			// a 32-bit length followed by the bytes: the SSH string encoding written by hand
-			p.hashes[h] = append(p.hashes[h][:n-1:n-1], c29Item{"string", c, ci})
-		} else {
-			p.hashes[h] = append(p.hashes[h], it)
-		}
+		p.hashWrite(args[0].t, p.content(args[1]), ci)
 		f.tup[val] = []c29V{{t: "n"}, {t: "nil", null: true}}
 		return next()
 	case cc.IsInvoke() && isHash(args[0]) && cc.Method.Name() == "Sum":
@@ -1104,12 +1231,32 @@ func (sx *c29SX) call(p *c29Path, f *c29Frame, ci ssa.CallInstruction) *c29Fork 
 		if mi, ok := cc.Args[1].(*ssa.MakeInterface); !ok || !strings.HasSuffix(mi.X.Type().String(), "encoding/binary.bigEndian") {
 			enc = "not-big-endian:" + enc
 		}
+		// an array of uint32 is the concatenation of its elements
+		if mi, ok := cc.Args[2].(*ssa.MakeInterface); ok && !strings.HasPrefix(enc, "not-") {
+			if at, ok := mi.X.Type().Underlying().(*types.Array); ok && at.Len() <= 64 {
+				if bt, ok := at.Elem().Underlying().(*types.Basic); ok && bt.Kind() == types.Uint32 {
+					var els []c29Item
+					for i := int64(0); i < at.Len(); i++ {
+						ev, ok := p.sval[args[2].t+"["+strconv.FormatInt(i, 10)+"]"]
+						if !ok {
+							els = nil
+							break
+						}
+						els = append(els, c29Item{"u32", p.norm(p.conc(ev), at.Elem()), ci})
+					}
+					if els != nil {
+						p.hashes[args[0].t] = append(p.hashes[args[0].t], els...)
+						set(c29V{t: "nil", null: true})
+						return next()
+					}
+				}
+			}
+		}
 		p.hashes[args[0].t] = append(p.hashes[args[0].t], c29Item{enc, nt(2), ci})
 		set(c29V{t: "nil", null: true})
 		return next()
 	case strings.HasSuffix(name, "igEndian).PutUint32") && len(args) == 3:
-		p.wipe(args[1].t)
-		p.mem[args[1].t+"[]"] = c29V{t: "u32(" + nt(2) + ")"}
+		p.putField(args[1], 4, "u32("+nt(2)+")")
 		return next()
 	case strings.HasSuffix(name, "igEndian).AppendUint32") && len(args) == 3:
 		v := c29V{t: p.fresh("@m"), nn: true}
